@@ -14,7 +14,7 @@ one() {
   S=$(mktemp -d /tmp/rensel.XXXX); rsync -a --exclude .git /repo/ $S/
   (cd $S/$dir && for f in *.go; do gofmt -r "$name -> ${name}Rn" -w $f 2>/dev/null; done)
   if ! (cd $S && go build ./... 2>/dev/null); then echo "NOBUILD $label $pkg.$name"; rm -rf $S; return; fi
-  out=$(/verif/bin/gabilint -repo $S -prop all -evidence "" 2>&1 | grep -E "^\s+(VIOLATED|UNDECIDED)|load-failure" | cut -c1-220)
+  out=$(${GABILINT:-/verif/bin/gabilint} -repo $S -prop all -evidence "" 2>&1 | grep -E "^\s+(VIOLATED|UNDECIDED)|load-failure" | cut -c1-220)
   if [ -z "$out" ]; then echo "SILENT $label $pkg.$name"; else echo "ALARM $label $pkg.$name"; echo "$out" | head -4 | sed 's/^/      /'; fi
   rm -rf $S
 }
